@@ -60,6 +60,9 @@ type Req struct {
 	Log    string     `json:"log,omitempty"` // "" = library default; else zerolog level name
 	K      int        `json:"k,omitempty"`   // BMFF: number of ReadMetadata calls (default 3)
 	Alloc  bool       `json:"alloc,omitempty"`
+	// Concurrent: the call may run next to others in this process: the (process-wide) logger
+	// configuration and the LastValues slot are left alone.
+	Concurrent bool `json:"concurrent,omitempty"`
 }
 
 // Resp is everything observed.
@@ -286,8 +289,10 @@ func Exec(q Req) (resp Resp) {
 	in := NewInst(q.Input, q.Reader)
 	in.Budget = int64(len(q.Input))*4 + 200_000
 	lc := &logCounter{}
-	setLog(q.Log, lc)
-	defer ResetLog()
+	if !q.Concurrent {
+		setLog(q.Log, lc)
+		defer ResetLog()
+	}
 	var ms0, ms1 runtime.MemStats
 	if q.Alloc {
 		runtime.ReadMemStats(&ms0)
@@ -334,9 +339,11 @@ var LastValues []any
 
 func call(q Req, in *Inst) (dig string, errs string) {
 	var err error
-	LastValues = LastValues[:0]
-	keep := func(v any) { LastValues = append(LastValues, v) }
-	_ = keep
+	keep := func(v any) {}
+	if !q.Concurrent {
+		LastValues = LastValues[:0]
+		keep = func(v any) { LastValues = append(LastValues, v) }
+	}
 	switch q.Entry {
 	case "Decode":
 		var e exif2.Exif
